@@ -180,7 +180,32 @@ def check_case(calls, reply_pattern, rnd):
     return None, None, [(model_ids, got_ids), (model_pa, got_pa)]
 
 
+def shared_service_case():
+    """several entities in one process configured with the SAME service object (as every application does with the
+    library's own services): what one entity is configured with - an override of the class list - must not show up in
+    another"""
+    from pynetdicom2 import applicationentity as aem
+    svc = service_for(['1.2.826.0.1.3680043.9.5.1', '1.2.826.0.1.3680043.9.5.2'])
+    own = list(svc.sop_classes)
+    a = aem.ClientAE('ENTITYA', supported_ts=TS[:2])
+    a.add_scu(svc, sop_classes=['1.2.826.0.1.3680043.9.6.1'])
+    b = aem.ClientAE('ENTITYB', supported_ts=TS[:2])
+    b.add_scu(svc)
+    got_b = [str(d.sop_class) for _, d in sorted(b.context_def_list.items())]
+    got_a = [str(d.sop_class) for _, d in sorted(a.context_def_list.items())]
+    if got_a != ['1.2.826.0.1.3680043.9.6.1']:
+        return 'entity A, configured with an override list of one class, proposes %r' % (got_a,)
+    if got_b != own or sorted(b.supported_scu) != sorted(own):
+        return ('entity B was configured with the service\'s own two classes after entity A had used the same service with an '
+                'override: B proposes %r and treats %r as usable' % (got_b, sorted(b.supported_scu)))
+    if list(svc.sop_classes) != own:
+        return 'configuring an entity changed the service object: its class list is now %r' % (list(svc.sop_classes),)
+    return None
+
+
 def replay(case):
+    if case.get('shared_service'):
+        return shared_service_case()
     calls = [(k, list(c)) for k, c in case['calls']]
     try:
         v, key, _ = check_case(calls, case['pattern'], common.rng('c11-case-%d' % case.get('index', 0)))
@@ -234,6 +259,11 @@ def run(chk):
                 'each other and with the Lean model; non-trivial = '
                 'configurations with at least two classes')
     chk.trusted += ['harness/msgs.py real_requester: provider thread stubbed, everything else is the real constructor']
+    v = shared_service_case()
+    chk.case('shared-service', True, {'two entities, one service object, one override': True})
+    chk.count('shared-service')
+    if v:
+        chk.violation('C11:shared-service', v, {'shared_service': True})
     cases = []
 
     def classes(n, base):
